@@ -197,6 +197,12 @@ func (c *Ctx) loopWrites(fr *Frame, li *loopInfo) (cells map[interface{}]bool, f
 }
 
 func stableBase(li *loopInfo, cells map[interface{}]bool, v ssa.Value) bool {
+	if a, ok := v.(*ssa.Alloc); ok {
+		return !cells[a] // the content of a variable the loop does not assign
+	}
+	if fv, ok := v.(*ssa.FreeVar); ok {
+		return !cells[fv]
+	}
 	switch x := v.(type) {
 	case *ssa.Parameter, *ssa.Const:
 		return true
@@ -517,11 +523,26 @@ func (c *Ctx) preciseCallWrites(fr *Frame, cc *ssa.CallCommon, fields map[string
 				return false
 			}
 			a := argByName(id.Name)
+			var t types.Type
 			if a == nil {
-				return false
+				// a variable of the calling function (contracts of function values may mention them)
+				key, kt, ok := c.V.cellByName(fr.fn, id.Name)
+				if !ok {
+					return false
+				}
+				switch k := key.(type) {
+				case *ssa.Alloc:
+					a = k
+				case *ssa.FreeVar:
+					a = k
+				default:
+					return false
+				}
+				t = kt
+			} else {
+				t = a.Type()
 			}
 			var path []fieldInfo
-			t := a.Type()
 			for _, n := range names {
 				fis, ok := c.resolveFieldChain(t, n)
 				if !ok {
@@ -582,6 +603,12 @@ func (c *Ctx) preciseCallWrites(fr *Frame, cc *ssa.CallCommon, fields map[string
 // stableBaseTerm evaluates a loop-invariant base value at the loop head (the load instruction itself may
 // live inside the loop body and not have executed yet).
 func (c *Ctx) stableBaseTerm(st *State, fr *Frame, v ssa.Value) Term {
+	switch a := v.(type) {
+	case *ssa.Alloc:
+		return c.valAsTerm(c.loadCell(st, &Addr{Kind: aCell, Key: a, Elem: deref(a.Type())}))
+	case *ssa.FreeVar:
+		return c.valAsTerm(c.loadCell(st, &Addr{Kind: aCell, Key: a, Elem: deref(a.Type())}))
+	}
 	if u, ok := v.(*ssa.UnOp); ok && u.Op == token.MUL {
 		switch a := u.X.(type) {
 		case *ssa.Alloc:
